@@ -320,6 +320,15 @@ def run(rep, ctx):
     with rep.guard("R11.7"):
         from . import shared as _sh
         _sh.normal_form(rep, ctx.model, "R11.7")
+    rep.rule("R11.8", "every tabulated letter permutation is the bijection its normalizer induces: a layer whose origin spglib happens to place "
+             "differently (rigid shift, axis relabelling) is normalised to the same letters (shared with C06/C14)")
+    from .. import tableobl as _TO
+    _TO.norm_perm(rep, ctx.tables, "R11.8")
+    rep.floor("R11.8", 6000)
+    rep.rule("R11.9", "the cached conventional system (non-periodic vector last) is never modified after it has been built: undoing the 2D basis "
+             "swap for the Wyckoff solver happens on a copy (shared with C12)")
+    with rep.guard("R11.9"):
+        _SR.handed_out_objects_not_mutated(rep, ctx.model, "R11.9")
     rep.floor("R11.6", 12)
     rep.floor("R11.1", 7)
     rep.floor("R11.2", 2)
